@@ -199,7 +199,7 @@ theorem sum_indicator_mass {α} [AddCommMonoid α] (S S' : Nat)
   have := sum_indicator_comp S S' (fun _ => True) Q g τ hτ hQ
   simpa using this
 
-theorem list_eq_map_getD {β} (l : List β) (d : β) : l = (List.range l.length).map (fun i => l.getD i d) := by
+theorem marg_list_eq_map_getD {β} (l : List β) (d : β) : l = (List.range l.length).map (fun i => l.getD i d) := by
   apply List.ext_getElem
   · simp
   · intro i h1 h2
@@ -207,7 +207,7 @@ theorem list_eq_map_getD {β} (l : List β) (d : β) : l = (List.range l.length)
 
 theorem list_sum_eq_sum_getD {α} [AddCommMonoid α] (l : List α) :
     l.sum = ∑ i ∈ range l.length, l.getD i 0 := by
-  conv_lhs => rw [list_eq_map_getD l 0]
+  conv_lhs => rw [marg_list_eq_map_getD l 0]
   exact list_range_sum _ _
 
 /-! ### one `Array::sum` step in indicator form -/
@@ -301,7 +301,7 @@ theorem IsMarg_nil {α} [AddCommMonoid α] (a : Arr α) (hlen : a.data.length = 
     IsMarg [] a a := by
   refine ⟨(dropIdx_nil_left _).symm, ?_⟩
   simp only [dropIdx_nil_left]
-  conv_lhs => rw [list_eq_map_getD a.data 0, hlen]
+  conv_lhs => rw [marg_list_eq_map_getD a.data 0, hlen]
   apply List.map_congr_left
   intro t ht
   have ht' := List.mem_range.mp ht
